@@ -169,7 +169,9 @@ CLAIMED = {
               'TLC checks LisIndex.tla (entry list + data-type -> current log pass map) against the declarative answer for every '
               'conformant record sequence of <= 4 (5) records over 15 record kinds incl. alternate data, and every sequence '
               '(LisIndexTable) is rendered as a real file and indexed by the real FileIndex: listed records at true positions in '
-              'order, every log pass with its frame count and first X.'),
+              'order, every log pass with its frame count and first X.  The planner: LisPlan.tla transcribes FrameSetPlan.genEvents; TLC '
+              'checks every plan in the bound with an abstract byte-cursor interpreter and the real planner must emit exactly the '
+              'exported plan for every case (LisPlanTable).'),
         note=('The planner itself is not transcribed: its real output is validated as a trace. Known finding F11 (implied X after a '
               'record change) is recognised by exact emulation. Slices are bounded ones with step >= 1 (API restriction).'),
         technique='TLA+ spec + TLC model checking of the plan interpreter; TLC trace validation of real plans and results'),
